@@ -175,9 +175,11 @@ pub fn rand_shape(rng: &mut Rng, cfg: &RawCfg, slot: P) -> (Shape, &'static str)
             }
             5 if cfg.paths => {
                 let npts = 2 + rng.usize(5);
-                let pts = manhattan_path(rng, npts, 150, (400, 400));
+                let origin = (rng.range(300, 500), rng.range(300, 500)); // odd and even centre-line coordinates alike
+                let pts = manhattan_path(rng, npts, 150, origin);
                 if pts.iter().all(|p| p.0 >= 50 && p.1 >= 50 && p.0 <= 750 && p.1 <= 750) {
-                    let w = rng.range(1, 40) as usize;
+                    // narrow widths (1, 2, 3) as often as wide ones
+                    let w = if rng.bool() { rng.range(1, 3) } else { rng.range(1, 40) } as usize;
                     return (Shape::Path(Path { points: pts.iter().map(|p| pt(sh(*p))).collect(), width: w }), "path");
                 }
             }
